@@ -24,6 +24,7 @@ mut("C01", "adobe-gamma-2.2", "adobergb/adobergb.go", "math.Pow(float64(v), 563.
 mut("C01", "srgb-pow-in-float32", "srgb/srgb.go", "math.Pow((float64(v)+0.055)/1.055, 2.4)", "math.Pow(float64((v+0.055)/1.055), 2.4)")
 mut("C01", "nrgba-channel-swap", "adobergb/color.go", "\t\t\tR: From8Bit(c.R),\n\t\t\tG: From8Bit(c.G),", "\t\t\tR: From8Bit(c.G),\n\t\t\tG: From8Bit(c.R),")
 # ---- C02
+mut("C02", "table-input-accumulated", "linear/lut/lut.go", "\tfor i := range to16BitLUT {\n\t\tto16BitLUT[i] = linear.NormalisedTo16Bit(encode(float32(i) / 65535))\n\t}", "\tx := float32(0)\n\tfor i := range to16BitLUT {\n\t\tto16BitLUT[i] = linear.NormalisedTo16Bit(encode(x))\n\t\tx += 1.0 / 65535\n\t}", "float32 accumulation ends a step short of 1")
 mut("C02", "9bit-max-512", "linear/linear.go", "\t\treturn 511\n\t}\n\treturn uint16(v*511 + 0.5)", "\t\treturn 512\n\t}\n\treturn uint16(v*512 + 0.5)")
 mut("C02", "to8bit-indexes-with-8bit", "srgb/lut.go", "return linearToEncoded8LUT[linear.NormalisedTo9Bit(v)]", "return linearToEncoded8LUT[linear.NormalisedTo8Bit(v)]")
 mut("C02", "round-dropped", "linear/linear.go", "return uint8(v*255 + 0.5)", "return uint8(v * 255)")
@@ -69,6 +70,7 @@ mut("C09", "readprofile-no-recover", "meta/icc/profilereader.go", "\tdefer func(
 mut("C09", "revert-D4-wrap", "meta/icc/multilocalisedunicode.go", "if uint64(stringOffset)+uint64(stringLength) > uint64(len(data)) {", "if uint64(stringOffset+stringLength) > uint64(len(data)) {", "the pinned tree's defect D4")
 mut("C09", "png-iccp-make", "meta/pngmeta/pngmeta.go", "\t\t\tchunkData := &bytes.Buffer{}\n\t\t\t_, err = io.CopyN(chunkData, r, int64(ch.Length-offset))\n\t\t\tif err == io.EOF {", "\t\t\tchunkData := bytes.NewBuffer(make([]byte, 0, ch.Length-offset))\n\t\t\t_, err = io.CopyN(chunkData, r, int64(ch.Length-offset))\n\t\t\tif err == io.EOF {", "allocation sized by the declared length (D3 class)")
 mut("C09", "textdesc-no-zero-guard", "meta/icc/textdescription.go", "\tif asciiCount == 0 {\n\t\treturn desc, nil\n\t}\n", "", "count-1 underflow (D3 class)")
+mut("C09", "skip-by-recursion", "meta/webpmeta/webpmeta.go", "\tfor i := uint32(0); i < length; i++ {\n\t\t_, err := r.ReadByte()\n\t\tif err != nil {\n\t\t\treturn err\n\t\t}\n\t}\n\treturn nil", "\tif length == 0 {\n\t\treturn nil\n\t}\n\tif _, err := r.ReadByte(); err != nil {\n\t\treturn err\n\t}\n\treturn skip(r, length-1)", "one stack frame per skipped byte")
 mut("C09", "skip-ignores-error", "meta/webpmeta/webpmeta.go", "\tfor i := uint32(0); i < length; i++ {\n\t\t_, err := r.ReadByte()\n\t\tif err != nil {\n\t\t\treturn err\n\t\t}\n\t}\n\treturn nil", "\tfor i := uint32(0); i < length; i++ {\n\t\t_, _ = r.ReadByte()\n\t}\n\treturn nil")
 # ---- C10
 mut("C10", "rows-not-striped", "linear/linear.go", "\t\t\tfor i := bounds.Min.Y + workerNum; i < bounds.Max.Y; i += workerCount {\n\t\t\t\tfor j := bounds.Min.X; j < bounds.Max.X; j++ {\n\t\t\t\t\tdst.Set(", "\t\t\tfor i := bounds.Min.Y + workerNum; i < bounds.Max.Y; i++ {\n\t\t\t\tfor j := bounds.Min.X; j < bounds.Max.X; j++ {\n\t\t\t\t\tdst.Set(")
